@@ -819,6 +819,12 @@ func (x *Exec) checkPost(st *State, fr *Frame, res Value, pos token.Pos) {
 		if !c.resolvable(cl.Expr) {
 			continue // a proof step about locals that do not exist at this return
 		}
+		if cl.Kind == "use" {
+			if t := x.useLemma(st, cl, c); t != nil {
+				st.assume(t)
+			}
+			continue
+		}
 		t := x.evalBool(st, cl, c)
 		site := fmt.Sprintf("%s@%s", lineOf(cl.Line), x.pos(pos))
 		x.oblige(st, "assert", site, cl.Src, x.allProps(), t)
@@ -1252,4 +1258,52 @@ func (x *Exec) frameDutyRange(st *State, l loc, pos token.Pos, what string) {
 		return
 	}
 	x.oblige(st, "frame", x.pos(pos), what, x.framePropsOr(), mk(st.old.alloc, x.entryLocs(st)))
+}
+
+// useLemma: instance of a proved lemma at explicit arguments (assumed; the lemma has its own proof obligations).
+func (x *Exec) useLemma(st *State, cl *Clause, c *evalCtx) (res *Term) {
+	call, ok := cl.Expr.(*ast.CallExpr)
+	if !ok {
+		x.fail("use: expected lemma(args) at %s", cl.Line)
+		return nil
+	}
+	name := call.Fun.(*ast.Ident).Name
+	var ax *Axiom
+	for _, a := range x.p.spec.Axioms {
+		if a.Name == name && a.Lemma {
+			ax = a
+		}
+	}
+	if ax == nil || len(ax.Params) != len(call.Args) {
+		x.fail("use: no lemma %s with %d parameters (%s)", name, len(call.Args), cl.Line)
+		return nil
+	}
+	defer func() {
+		if r := recover(); r != nil {
+			if ee, ok := r.(evalErr); ok {
+				x.fail("contract error: %s", ee.msg)
+				res = nil
+				return
+			}
+			panic(r)
+		}
+	}()
+	c.where = cl.Line
+	vars := map[string]Value{}
+	guard := tTrue
+	for i, prm := range ax.Params {
+		v := c.rv(c.eval(call.Args[i]))
+		vars[prm.Name] = v
+		var w uint
+		if n, _ := fmt.Sscanf(prm.Typ, "bv%d", &w); n == 1 {
+			t := scT(v)
+			guard = And(guard, Le(Int(0), t), Lt(t, pow2(int64(w))))
+		}
+	}
+	cc := &evalCtx{x: x, st: st, heap: st.heap, vars: vars, facts: false, where: "lemma " + ax.Name, ghost: st.ghost}
+	body := cc.term(ax.Body)
+	if ax.Req != nil {
+		body = Implies(cc.term(ax.Req), body)
+	}
+	return Implies(guard, body)
 }
